@@ -281,6 +281,10 @@ def npRepeat {α : Type} (a : List α) (counts : List Int) : Py (List α) :=
 def npWhere1 (b : List Bool) : List Int :=
   ((List.range b.length).filter (fun i => b.getD i false)).map (fun (i : Nat) => (i : Int))
 
+/-- `d[tuple(k)].append(v)` on a `defaultdict(list)` kept as an insertion-ordered association list -/
+def pyGroupAppend (d : List (List Int × List Int)) (k : List Int) (v : Int) : List (List Int × List Int) :=
+  if d.any (fun p => p.1 == k) then d.map (fun p => if p.1 == k then (p.1, p.2 ++ [v]) else p) else d ++ [(k, [v])]
+
 /-- `np.floor(x)` as an integer -/
 def npFloor (x : Rat) : Int := x.floor
 
